@@ -261,6 +261,7 @@ def run(R):
     R.rule("C14-R2", "escape tables are inverse: every (char -> escape) pair of the writer has the inverse arm in the decoder, "
                      "and the characters that end a token or a line (quote, backslash, LF, CR) are all escaped")
     R.rule("C14-R3", "reader symmetry: every term cleaner used by a loader decodes literal bodies with decode_ntriples_literal")
+    case_preserved(R, "C14-R9")
     gens = []
     for nm in ("generate_ntriples", "generate_nquads", "generate_turtle"):
         b = R.body("C14-R1", "SparqlDatabase::" + nm, crate="kolibrie")
@@ -270,15 +271,24 @@ def run(R):
     for b in gens:
         R.saw(b)
         found = 0
-        for bb, ln, tmpl, args in format_groups(b):
-            qi = quoted_placeholder_index(tmpl)
-            if qi is None:
-                continue
-            found += 1
-            nq += 1
-            ok = qi < len(args) and args[qi].args and from_call(b, args[qi].args[0], ESC)
-            R.ob("C14-R1", "escaped:%s:%d" % (b.name, found), "%s writes a quoted literal only after escaping it" % b.name, ok, where=b.where(ln),
-                 detail=None if ok else "a literal containing a quote, backslash or line break cannot be read back")
+        # the writer itself, and string-building helpers of the same file it delegates a term to (`serialize_literal(obj)`)
+        helpers = []
+        for x in prog.family(b.key):
+            for c in x.calls():
+                hb = prog.bodies.get(c.key)
+                if hb is not None and hb.crate == "kolibrie" and not hb.is_closure and hb.file == b.file and hb.local_ty(0) == "alloc::string::String" \
+                        and hb.name not in (ESC if isinstance(ESC, (tuple, list, set)) else (ESC,)) and hb not in helpers and hb.key != b.key and not hb.name.startswith("generate_"):
+                    helpers.append(hb)
+        for w in [b] + helpers:
+            for bb, ln, tmpl, args in format_groups(w):
+                qi = quoted_placeholder_index(tmpl)
+                if qi is None:
+                    continue
+                found += 1
+                nq += 1
+                ok = qi < len(args) and args[qi].args and from_call(w, args[qi].args[0], ESC)
+                R.ob("C14-R1", "escaped:%s:%d" % (b.name, found), "%s writes a quoted literal only after escaping it%s" % (b.name, "" if w is b else " (in its helper %s)" % w.name), ok,
+                     where=w.where(ln), detail=None if ok else "a literal containing a quote, backslash or line break cannot be read back")
         R.ob("C14-R1", "writes-literals:" + b.name, "%s has a quoted-literal branch" % b.name, found >= 1, where=b.where())
     R.floor("C14-R1", "quoted literal writes", nq, 3)
     # term-kind decision predicates: the same set of tests in all serializers for the object position
@@ -688,3 +698,24 @@ def _bare_sources(x, op, site, depth=0, seen=None):
                 if rv["rv"] == "use" and rv["op"].get("k") == "const":
                     pass
     return out
+
+
+def case_preserved(R, rid):
+    """the term cleaners store terms in the letter case of the document"""
+    prog = R.prog
+    R.rule(rid, "terms are stored as written: no term cleaner of the text loaders (clean_ntriples_term, clean_turtle_term and what they call in this crate) "
+                "maps letter case (`to_lowercase`, `to_ascii_lowercase`, `to_uppercase`, `make_ascii_*case`, ..). A language tag, a prefix label or a "
+                "scheme that is case-insensitive *for comparison* is still part of the lexical term: folded on import, `meet me @HQ` - a plain literal the "
+                "writer may spell `\"meet me \"@HQ` - comes back as `meet me @hq`, and `\"chat\"@FR` no longer equals what the N-Triples line said")
+    CASE = ("to_lowercase", "to_uppercase", "to_ascii_lowercase", "to_ascii_uppercase", "make_ascii_lowercase", "make_ascii_uppercase", "to_lower", "to_upper")
+    n = 0
+    for nm in ("clean_ntriples_term", "clean_turtle_term"):
+        b = prog.one("SparqlDatabase::" + nm, crate="kolibrie")
+        if not R.anchor(rid, nm, b):
+            continue
+        n += 1
+        R.saw(b)
+        reach = [prog.bodies[k] for k in prog.reachable([b.key]) if k in prog.bodies and prog.bodies[k].crate == "kolibrie"]
+        bad = sorted({"%s in %s" % (c.name(), y.name) for y in reach for x in prog.family(y.key) for c in x.calls() if c.name() in CASE})
+        R.ob(rid, "case:" + nm, "%s keeps the letter case of the term it cleans (case mappings on the way: %s)" % (nm, bad), not bad, where=b.where())
+    R.floor(rid, "term cleaners", n, 2)
